@@ -36,6 +36,8 @@ func H_C09_slice() {
 var c09Params = []string{
 	"find_first(a, b, c)", "find_first(a, b, c, d)", "find_last(a, b, c)", "find_last(a, b, c, d)",
 	"replace(a, b, 'zz', c)", "split(a, b, c)", "split(a, '', c)", "a[c]",
+	// a pad that cannot make the result grow: the width may not drive the time either
+	"pad_left(a, c, '')", "pad_right(a, c, '')",
 }
 
 // H_C09_params: numeric arguments (offsets, counts) over the whole 64-bit
@@ -96,5 +98,27 @@ func H_C09_spellings() {
 	d := json.Number(c09Spellings[vrtChoose("d", len(c09Spellings))])
 	doc := map[string]any{"a": "abcabc", "b": "c", "c": c, "d": d}
 	_, _ = Search(c09Params[k], doc)
+	vrtReach("done")
+}
+
+// H_C09_nesting: the cost of a nested expression grows with its length, not
+// exponentially with its depth: each construct nested 26 deep must evaluate
+// within the instruction budget (2^26 evaluations would not).
+var c09Nest = [][3]string{
+	{"(", "a", ")[:]"}, {"reverse(", "a", ")[:]"}, {"(", "a", ")[*]"}, {"(", "a", ")[]"}, {"[", "a", "][0]"}, {"not_null(", "a", ")"},
+	{"(", "a", " | @)"}, {"(", "a", "[?@ || `true`])"}, {"to_array(", "a", ")[0:]"}, {"{k: ", "a", "}.k"}, {"(let $v = ", "a", " in $v)"}, {"sort(", "a", ")[:]"}, {"(", "a", ")[::1]"}, {"map(&@, ", "a", ")[:]"},
+}
+
+func H_C09_nesting() {
+	vrtMaxAlloc(64)
+	vrtBudget(400000)
+	n := c09Nest[vrtChoose("construct", len(c09Nest))]
+	expr := n[1]
+	for i := 0; i < 26; i++ {
+		expr = n[0] + expr + n[2]
+	}
+	vrtNote("template:" + n[0] + "..." + n[2] + " x26")
+	_, err := Search(expr, map[string]any{"a": []any{"x", "y"}})
+	vrtAssert(err == nil, "nested expression evaluates")
 	vrtReach("done")
 }
